@@ -331,6 +331,17 @@ def _random_loc(rng, length, circ, shortest):
             end = rng.randrange(2, 9)
             parts = [[start, length], [0, end]]
             extent = length - start + end
+            extra = rng.random()
+            if extra < 0.2:
+                # a further exon in front of the origin
+                first = rng.randrange(start - 7, start - 3)
+                parts = [[first, rng.randrange(first + 1, start - 1)]] + parts
+                extent += start - first
+            elif extra < 0.4:
+                # a further exon behind the origin
+                last = rng.randrange(end + 4, end + 8)
+                parts = parts + [[rng.randrange(end + 2, last), last]]
+                extent += last - end
         elif kind < 0.35:
             cuts = sorted(rng.sample(range(0, length + 1), 4))
             parts = [[cuts[0], cuts[1]], [cuts[2], cuts[3]]]
@@ -371,13 +382,27 @@ def _planted_record(rng, length):
     return rec
 
 
-def _random_all_case(rng):
+def _spliced_crossing_gene(rng, length):
+    """ a gene over the origin with a further exon on one side of it (three parts), on either strand """
+    start = rng.randrange(length - 6, length - 1)
+    end = rng.randrange(2, 6)
+    if rng.random() < 0.5:
+        first = rng.randrange(start - 8, start - 4)
+        parts = [[first, rng.randrange(first + 2, start - 1)], [start, length], [0, end]]
+    else:
+        last = rng.randrange(end + 5, end + 10)
+        parts = [[start, length], [0, end], [rng.randrange(end + 2, last - 1), last]]
+    strand = rng.choice([1, -1])
+    return {"parts": parts[::-1] if strand == -1 else parts, "strand": strand}
+
+
+def _random_all_case(rng, spliced_crossing=False):
     length = rng.choice([24, 27, 30, 33, 36, 41])
-    circ = rng.random() < 0.6
+    circ = spliced_crossing or rng.random() < 0.6
     rec = _planted_record(rng, length) if rng.random() < 0.8 else codes(_random_string(rng, length))
     overlap = rng.choice([0, 1, 2, 3, 5])
-    genes = []
-    for _ in range(rng.choice([0, 0, 1, 1, 2, 2, 3])):
+    genes = [_spliced_crossing_gene(rng, length)] if spliced_crossing else []
+    for _ in range(rng.choice([0, 0, 1] if spliced_crossing else [0, 0, 1, 1, 2, 2, 3])):
         loc = _random_loc(rng, length, circ, 2 * overlap + 1)
         if loc not in genes:
             genes.append(loc)
@@ -535,6 +560,8 @@ def run(ctx):
     cases += _gaps_cases(rng, ctx.quick)
     for _ in range(4000 if ctx.quick else 120000):
         cases.append(_random_all_case(rng))
+    for _ in range(600 if ctx.quick else 12000):
+        cases.append(_random_all_case(rng, spliced_crossing=True))
     for idx, case in enumerate(cases):
         case["id"] = idx
     cases_by_id = {case["id"]: case for case in cases}
@@ -581,6 +608,7 @@ def run(ctx):
                 "and without record length; ORF-free strings: 3 placements), plus seeded variants with C/N/R/Y/lower case "
                 "and random longer strings; find_intergenic_areas on every layout of <= 2 genes on 8 bases plus random "
                 "layouts; find_all_orfs on seeded random records (24-41 bases, 0-3 genes incl. multi-exon and "
+                "three-part origin-crossing ones on both strands, "
                 "origin-spanning, whole record / simple area / origin-crossing area); non-trivial = the string contains an "
                 "ORF (scan) or the search returned a feature (find_all_orfs)")
     ctx.notes["strings_enumerated"] = len(strings)
